@@ -188,11 +188,21 @@ func runTxCase(seed int64, tc TxCase, rep *lib.Report, verbose bool) (items []st
 				}
 			}
 			if !signedByBridger || signer.Acc().String() != regBridger {
-				rep.Fail(lib.Failure{Kind: "monitor",
-					What: fmt.Sprintf("a MsgClaim transaction whose only required signer is %s (signed by account %d) recorded a vote for oracle %d, whose registered bridger %s did not sign [%s]%s",
-						strings.Join(required, ","), tc.Signer, oid, regBridger, tc.Name,
-						map[bool]string{true: fmt.Sprintf("; last observed nonce is now %d", after.lastObs), false: ""}[after.lastObs != before.lastObs]),
-					Sig: "C02:signer-not-bridger", Replay: Replay{ChainSeed: seed, Module: tc.Module, Tx: &tc}})
+				what := fmt.Sprintf("a MsgClaim transaction whose only required signer is %s (signed by account %d) recorded a vote for oracle %d, whose registered bridger %s did not sign [%s]%s",
+					strings.Join(required, ","), tc.Signer, oid, regBridger, tc.Name,
+					map[bool]string{true: fmt.Sprintf("; last observed nonce is now %d", after.lastObs), false: ""}[after.lastObs != before.lastObs])
+				if tc.Bytes {
+					// reachable through a real transaction: a violation of C02
+					rep.Fail(lib.Failure{Kind: "monitor", What: what + " — delivered as transaction bytes through BaseApp.runTx",
+						Sig: "C02:signer-not-bridger", Replay: Replay{ChainSeed: seed, Module: tc.Module, Tx: &tc}})
+				} else {
+					// message object handed to the real ante handler + message router: latent on a tree where no MsgClaim
+					// survives decoding; recorded, not raised
+					rep.Count("tx:object:vote-counted-for-non-signer(latent)")
+					noteOnce(rep, "latent (docs/findings/C02-1.md): with the MsgClaim OBJECT handed to the real ante handler and message router, a transaction signed only by an outsider "+
+						"is counted as the vote of an oracle whose bridger did not sign (nothing compares wrapper and wrapped bridger_address); "+
+						"not raised because on this tree no MsgClaim decoded from transaction bytes passes ValidateBasic — it is raised as soon as the byte path accepts such a transaction")
+				}
 			}
 		}
 		rep.Case("tx/"+tc.Name+fmt.Sprint(innerID), true)
